@@ -9,6 +9,9 @@ theorem upd_apply {α : Type} (f : Nat → α) (i j : Nat) (v : α) : upd f i v 
 @[simp] theorem upd_self {α : Type} (f : Nat → α) (i : Nat) : upd f i (f i) = f := by
   funext j; simp [upd_apply]; intro h; rw [h]
 
+@[simp] theorem upd_upd {α : Type} (f : Nat → α) (i : Nat) (a b : α) : upd (upd f i a) i b = upd f i b := by
+  funext j; simp only [upd_apply]; split <;> rfl
+
 /-! ### Sys primitives -/
 
 @[simp] theorem pushCmd_env (s : Sys) (w c) : (s.pushCmd w c).env = s.env := rfl
